@@ -468,6 +468,24 @@ func attachmentBaseForMethod(
 			attachment,
 			interpreter.MustSemaTypeOfValue(attachment, c),
 		)
+	} else {
+		// In the evaluation of destroy events, `base` and `self` are fully entitled,
+		// as the value must be owned. This is how the default arguments were type-checked,
+		// and equivalent to the interpreter (see `Interpreter.evaluateDefaultDestroyEvent`).
+		attachmentType := interpreter.MustSemaTypeOfValue(attachment, c)
+		entitlementSupportingType, ok := attachmentType.(sema.EntitlementSupportingType)
+		if !ok {
+			panic(errors.NewUnreachableError())
+		}
+		fullyEntitledAccess := entitlementSupportingType.SupportedEntitlements().Access()
+		authorizationNeededForFunction = interpreter.ConvertSemaAccessToStaticAuthorization(c, fullyEntitledAccess)
+
+		narrowedSelf = interpreter.NewEphemeralReferenceValue(
+			c,
+			authorizationNeededForFunction,
+			attachment,
+			attachmentType,
+		)
 	}
 
 	base = attachment.GetBaseValue(c, authorizationNeededForFunction)
